@@ -75,3 +75,124 @@ prim_any!(prim_reason_pubrel_any, PubrelReason, 2, 4);
 prim_any!(prim_reason_pubcomp_any, PubcompReason, 2, 4);
 prim_any!(prim_reason_suback_any, SubackReason, 2, 4);
 prim_any!(prim_reason_unsuback_any, UnsubackReason, 2, 4);
+
+//@ h name=prim_u16_exact props=C02,C04 tier=quick cap=small to=300
+//@ h name=prim_u32_exact props=C02,C04 tier=quick cap=small to=300
+//@ claim: <u16/u32 as TryDecode>::try_decode equals the reference (big-endian value of the first 2/4 bytes; error exactly when fewer bytes are available) on every input; this is the contract under which the structural decode harnesses replace u16::try_decode by its straight-line model
+//@ bounds: arbitrary buffers of 0..=4 (u16) and 0..=6 (u32) bytes; only the first 2/4 bytes are read
+//@ funcs: <u16 as TryDecode>::try_decode, <u32 as TryDecode>::try_decode
+#[kani::proof]
+#[kani::unwind(6)]
+pub(crate) fn prim_u16_exact() {
+    let b = any_bytes::<4>(0);
+    let real = u16::try_decode(b);
+    let model = u16_ref(b);
+    match (&real, &model) {
+        (Ok(x), Ok(y)) => {
+            assert!(x == y, "u16 decoder returns the big-endian value of the first two bytes");
+            kani::cover!(*x == 0x0102, "value 0x0102");
+        }
+        (Err(_), Err(_)) => {
+            kani::cover!(true, "short input refused");
+        }
+        _ => panic!("u16 decoder succeeds exactly when at least two bytes are available"),
+    }
+    core::mem::forget(real);
+    core::mem::forget(model);
+}
+
+#[kani::proof]
+#[kani::unwind(8)]
+pub(crate) fn prim_u32_exact() {
+    let b = any_bytes::<6>(0);
+    let real = u32::try_decode(b);
+    if b.len() < 4 {
+        assert!(real.is_err(), "u32 decoder refuses fewer than four bytes");
+        kani::cover!(true, "short input refused");
+    } else {
+        let want = ((b[0] as u32) << 24) | ((b[1] as u32) << 16) | ((b[2] as u32) << 8) | b[3] as u32;
+        assert!(matches!(real, Ok(x) if x == want), "u32 decoder returns the big-endian value of the first four bytes");
+        kani::cover!(want == 0x01020304, "value 0x01020304");
+    }
+    core::mem::forget(real);
+}
+
+
+macro_rules! reason_exact {
+    ($name:ident, $t:ty, [$($code:expr),*]) => {
+        #[kani::proof]
+        #[kani::unwind(4)]
+        pub(crate) fn $name() {
+            let b: u8 = kani::any();
+            let legal = false $(|| b == $code)*;
+            let r = <$t>::try_from(b);
+            match r {
+                Ok(v) => {
+                    assert!(legal, "only the codes MQTT 5 defines for this packet are accepted");
+                    assert!(v as u8 == b, "the decoded reason has the numeric value that was on the wire");
+                    kani::cover!(b >= 0x80, "opt: failing reason code accepted");
+                    kani::cover!(true, "defined code accepted");
+                }
+                Err(_) => {
+                    assert!(!legal, "every code MQTT 5 defines for this packet is accepted");
+                    kani::cover!(true, "undefined code refused");
+                }
+            }
+        }
+    };
+}
+//@ h name=reason_connect_exact props=C02 tier=quick cap=small to=300
+//@ h name=reason_disconnect_exact props=C02 tier=quick cap=small to=300
+//@ h name=reason_puback_exact props=C02 tier=quick cap=small to=300
+//@ h name=reason_pubrec_exact props=C02 tier=quick cap=small to=300
+//@ h name=reason_pubrel_exact props=C02 tier=quick cap=small to=300
+//@ h name=reason_pubcomp_exact props=C02 tier=quick cap=small to=300
+//@ h name=reason_suback_exact props=C02 tier=quick cap=small to=300
+//@ h name=reason_unsuback_exact props=C02 tier=quick cap=small to=300
+//@ h name=reason_auth_exact props=C02 tier=quick cap=small to=300
+//@ claim: each reason-code decoder accepts exactly the codes MQTT 5 defines for that packet type (tables 3.2.2.2, 3.4.2.1, 3.5.2.1, 3.6.2.1, 3.7.2.1, 3.9.3, 3.11.3, 3.14.2.1, 3.15.2.1, listed independently in the harness) and maps each to the value with the same number
+//@ bounds: all 256 byte values (exhaustive by solver)
+//@ funcs: TryFrom<u8> for ConnectReason, DisconnectReason, PubackReason, PubrecReason, PubrelReason, PubcompReason, SubackReason, UnsubackReason, AuthReason
+reason_exact!(reason_connect_exact, ConnectReason, [0x00, 0x80, 0x81, 0x82, 0x83, 0x84, 0x85, 0x86, 0x87, 0x88, 0x89, 0x8a, 0x8c, 0x90, 0x95, 0x97, 0x99, 0x9a, 0x9b, 0x9c, 0x9d, 0x9f]);
+reason_exact!(reason_disconnect_exact, DisconnectReason, [0x00, 0x04, 0x80, 0x81, 0x82, 0x83, 0x87, 0x89, 0x8b, 0x8d, 0x8e, 0x8f, 0x90, 0x93, 0x94, 0x95, 0x96, 0x97, 0x98, 0x99, 0x9a, 0x9b, 0x9c, 0x9d, 0x9e, 0x9f, 0xa0, 0xa1, 0xa2]);
+reason_exact!(reason_puback_exact, PubackReason, [0x00, 0x10, 0x80, 0x83, 0x87, 0x90, 0x91, 0x97, 0x99]);
+reason_exact!(reason_pubrec_exact, PubrecReason, [0x00, 0x10, 0x80, 0x83, 0x87, 0x90, 0x91, 0x97, 0x99]);
+reason_exact!(reason_pubrel_exact, PubrelReason, [0x00, 0x92]);
+reason_exact!(reason_pubcomp_exact, PubcompReason, [0x00, 0x92]);
+reason_exact!(reason_suback_exact, SubackReason, [0x00, 0x01, 0x02, 0x80, 0x83, 0x87, 0x8f, 0x91, 0x97, 0x9e, 0xa1, 0xa2]);
+reason_exact!(reason_unsuback_exact, UnsubackReason, [0x00, 0x11, 0x80, 0x83, 0x87, 0x8f, 0x91]);
+reason_exact!(reason_auth_exact, AuthReason, [0x00, 0x18, 0x19]);
+
+//@ h name=prim_checked_exact props=C02 tier=quick cap=small to=300
+//@ claim: the validity-checked primitive decoders are exact: bool accepts 0/1 only and yields that value; QoS accepts 0/1/2 and yields that level; NonZero<u8/u16/u32> accept every non-zero value and yield it unchanged, refusing zero
+//@ bounds: arbitrary 4-byte buffers (all values of the decoded widths)
+//@ funcs: <bool/QoS/NonZero<u8>/NonZero<u16>/NonZero<u32> as TryDecode>::try_decode
+#[kani::proof]
+#[kani::unwind(6)]
+pub(crate) fn prim_checked_exact() {
+    let b = any_bytes::<4>(4);
+    match bool::try_decode(b) {
+        Ok(v) => assert!(b[0] <= 1 && v == (b[0] == 1), "bool value"),
+        Err(_) => assert!(b[0] > 1, "bool refuses only values above 1"),
+    }
+    match QoS::try_decode(b) {
+        Ok(v) => assert!(b[0] <= 2 && v as u8 == b[0], "QoS value"),
+        Err(_) => assert!(b[0] > 2, "QoS refuses only 3 and above"),
+    }
+    match <NonZero<u8>>::try_decode(b) {
+        Ok(v) => assert!(v.get() == b[0] && b[0] != 0, "non-zero byte"),
+        Err(_) => assert!(b[0] == 0, "only zero refused"),
+    }
+    let w16 = ((b[0] as u16) << 8) | b[1] as u16;
+    match <NonZero<u16>>::try_decode(b) {
+        Ok(v) => assert!(v.get() == w16 && w16 != 0, "non-zero two byte integer"),
+        Err(_) => assert!(w16 == 0, "only zero refused"),
+    }
+    let w32 = ((b[0] as u32) << 24) | ((b[1] as u32) << 16) | ((b[2] as u32) << 8) | b[3] as u32;
+    match <NonZero<u32>>::try_decode(b) {
+        Ok(v) => assert!(v.get() == w32 && w32 != 0, "non-zero four byte integer"),
+        Err(_) => assert!(w32 == 0, "only zero refused"),
+    }
+    kani::cover!(w16 == 0xffff, "maximum packet identifier");
+    kani::cover!(b[0] == 0 && b[1] == 0, "zero identifier refused");
+}
